@@ -2,11 +2,11 @@
 (set-info :status unknown)
 (declare-fun attempts!1 () Int)
 (assert
- (let (($x10 (not (<= 1 attempts!1))))
- (not $x10)))
+ (let (($x11 (not (<= 1 attempts!1))))
+ (not $x11)))
 (assert
  (= 1 attempts!1))
 (assert
- (let (($x31 (>= attempts!1 1)))
-(not $x31)))
+ (let (($x32 (>= attempts!1 1)))
+(not $x32)))
 (check-sat)
